@@ -36,7 +36,7 @@ FileChoices == {A(Root \o <<"src", "a.c">>), R(<<"src", "a.c">>), R(<<"..", "src
                 R(<<".", "src", "..", "src", "a.c">>), A(Root \o <<"src", "missing.c">>), R(<<"src", "a.o">>), R(<<"a.c">>)}
 IncChoices == {<<>>, <<A(Append(Root, "inc"))>>, <<R(<<"gen">>)>>, <<R(<<"..", "inc">>)>>, <<R(<<"inc">>), R(<<"gen">>)>>,
                <<R(<<".">>)>>}
-CmdChoices == {"ok", "empty"}
+CmdChoices == {"ok", "empty", "blank"}   \* blank: a command string of white space only
 
 VARIABLES ents, done
 vars == <<ents, done>>
@@ -50,8 +50,8 @@ NoLinks == [x \in {} |-> <<>>]
 DirOf(e) == IF e.dir.none THEN Root ELSE IF e.dir.abs THEN e.dir.p ELSE Root \o e.dir.p
 FileOf(e) == Resolve(NoLinks, IF e.file.abs THEN e.file.p ELSE DirOf(e) \o e.file.p)
 IncOf(e, d) == Resolve(NoLinks, IF d.abs THEN d.p ELSE DirOf(e) \o d.p)
-Skipped(e) == e.cmd = "empty" \/ FileOf(e) \notin Existing \/ ~IsSource(FileOf(e)) \/ FileOf(e)[Len(FileOf(e))] = "a.o"
-Why(e) == IF e.cmd = "empty" THEN "empty" ELSE IF FileOf(e) \notin Existing THEN "missing"
+Skipped(e) == e.cmd \in {"empty", "blank"} \/ FileOf(e) \notin Existing \/ ~IsSource(FileOf(e)) \/ FileOf(e)[Len(FileOf(e))] = "a.o"
+Why(e) == IF e.cmd \in {"empty", "blank"} THEN "empty" ELSE IF FileOf(e) \notin Existing THEN "missing"
           ELSE IF Skipped(e) THEN "notsource" ELSE "kept"
 
 Expect(e) == [file |-> FileOf(e), incs |-> [k \in 1..Len(e.incs) |-> IncOf(e, e.incs[k])], why |-> Why(e)]
